@@ -252,7 +252,8 @@ pub fn gen_type(rng: &mut Rng, cfg: &Cfg, ids: &IdGen, me: usize, force_kind: Op
     let def: TypeDef<PortableForm> = match kind {
         0 => TypeDefComposite::new(gen_fields(rng, cfg, ids, me)).into(),
         1 => {
-            let n = gen_count(rng, cfg).min(300);
+            // 256 variants is the largest enum the codec supports: make sure 255 / 256 / 257 occur
+            let n = if cfg.mid && rng.chance(1, 40) { *rng.pick(&[255usize, 256, 257]) } else { gen_count(rng, cfg).min(300) };
             let small = Cfg { mid: false, big: false, ..cfg.clone() };
             let vars: Vec<PVariant> = (0..n)
                 .map(|i| {
@@ -459,7 +460,7 @@ pub fn mutate(rng: &mut Rng, reg: &PortableRegistry) -> Option<(PortableRegistry
         return Some((r, "push-type"));
     }
     let ti = rng.below(r.types.len());
-    let kind = rng.below(20);
+    let kind = rng.below(23);
     let what: &'static str = match kind {
         0 => {
             r.types[ti].id = r.types[ti].id.wrapping_add(1);
@@ -647,6 +648,22 @@ pub fn mutate(rng: &mut Rng, reg: &PortableRegistry) -> Option<(PortableRegistry
             } else {
                 return None;
             }
+        }
+        20 => {
+            // prepend a segment: the shorter path becomes a proper tail of the longer one
+            r.types[ti].ty.path.segments.insert(0, "krate".to_string());
+            "path-prepend"
+        }
+        21 => {
+            if r.types[ti].ty.path.segments.len() < 2 {
+                return None;
+            }
+            r.types[ti].ty.path.segments.remove(0);
+            "path-pop-front"
+        }
+        22 => {
+            r.types[ti].ty.docs.insert(0, "first".to_string());
+            "docs-prepend"
         }
         18 => {
             let mut fs = all_fields_mut(&mut r.types[ti].ty);
